@@ -370,6 +370,79 @@ class C15(PropertyCheck):
         for (W, B, b, s, counter), ans in zip(metas, self.driver.run(reqs)):
             if ans != b:
                 res.disagreements.append(Disagreement({"W": W, "B": B, "b": b, "s": s, "counter": counter}, ans, b, "model batch index differs from the global batch"))
+        self.schedule_length(res)
+
+    # ---- the schedule's length n_batches ----------------------------------------------------
+    @staticmethod
+    def true_batches(kind, v, B, n=None, Wd=None, dl=None):
+        """number of batches of the run, counted by enumerating them (independent of the formula in the code)"""
+        if kind == "updates":
+            return v
+        if kind == "samples":
+            k, got = 0, 0
+            while got < v:
+                got += B
+                k += 1
+            return k
+        per_rank = n // Wd
+        chunks = [min(B, per_rank - i) for i in range(0, per_rank, B)]
+        if dl:
+            chunks = [c for c in chunks if c == B]
+        return v * len(chunks)
+
+    def schedule_length(self, res):
+        import kappadata.transforms as T
+        import torch
+        rng = self.rng
+        cases = []
+        for B in range(1, 6):
+            for n in range(1, 26):
+                for Wd in (1, 2, 3):
+                    for dl in (True, False):
+                        cases.append(("epochs", rng.randint(0, 3), B, n, Wd, dl))
+            for v in range(0, 14):
+                cases.append(("updates", v, B, None, None, None))
+                cases.append(("samples", v, B, None, None, None))
+        if self.tier == "quick":
+            rng.shuffle(cases)
+            # keep the divisible-boundary cells (per-rank length an exact multiple of the batch size, drop_last off) in every run
+            keep = [c for c in cases if c[0] == "epochs" and not c[5] and (c[3] // c[4]) % c[2] == 0 and c[3] // c[4] > 0][:40]
+            cases = keep + cases[:260]
+        reqs, metas = [], []
+        for kind, v, B, n, Wd, dl in cases:
+            t = T.KDScheduledTransform(transform=T.KDColorJitter(0.4, 0.4, 0.2, 0.1))
+            kw = {"batch_size": B}
+            if kind == "epochs":
+                kw.update(epochs=v, dataset_len=n, world_size=Wd, drop_last=dl)
+            else:
+                kw[kind] = v
+            t._worker_init_fn(0, 1, **kw)
+            expect = self.true_batches(kind, v, B, n, Wd, dl)
+            res.cases += 1
+            res.bump(f"n_batches:{kind}")
+            res.nontrivial.add(("nb", kind, v, B, n, Wd, dl))
+            rq = {"op": "st.nbatches", "kind": kind, "v": v, "B": B}
+            if kind == "epochs":
+                rq.update(n=n, W=Wd, dl=dl)
+            reqs.append(rq)
+            metas.append((kind, v, B, n, Wd, dl, t.n_batches))
+            if t.n_batches != expect and not any(f.key == "scheduled:n-batches" for f in res.failures):
+                inp = {"kind": kind, "value": v, "batch_size": B, "dataset_len": n, "world_size": Wd, "drop_last": dl}
+                # the consequence the property names: the strength applied/reported for batch b is not schedule(b)
+                x = torch.rand(3, 4, 4)
+                ctx = {}
+                if expect > 1:
+                    t.sample_counter = B       # second global batch
+                    t(x, ctx=ctx)
+                    want = t.schedule.get_value(1, expect)
+                    got = ctx.get(t.ctx_key)
+                else:
+                    want = got = None
+                res.failures.append(Failure("scheduled:n-batches", f"schedule length n_batches={t.n_batches} but the run has {expect} batches "
+                                            f"({inp}); strength of global batch 1: reported {got}, schedule(1 of {expect})={want}", inp, expect, t.n_batches))
+        for (kind, v, B, n, Wd, dl, real), ans in zip(metas, self.driver.run(reqs)):
+            if ans != real:
+                res.disagreements.append(Disagreement({"kind": kind, "v": v, "B": B, "n": n, "W": Wd, "dl": dl}, ans, real, "n_batches differs from the model"))
 
     def search(self, budget_s, hints):
         import time
@@ -389,6 +462,19 @@ class C15(PropertyCheck):
         return out
 
     def replay_input(self, inp):
+        if "batch_size" in inp and "kind" in inp:
+            import kappadata.transforms as T
+            t = T.KDScheduledTransform(transform=T.KDColorJitter(0.4, 0.4, 0.2, 0.1))
+            kw = {"batch_size": inp["batch_size"]}
+            if inp["kind"] == "epochs":
+                kw.update(epochs=inp["value"], dataset_len=inp["dataset_len"], world_size=inp["world_size"], drop_last=inp["drop_last"])
+            else:
+                kw[inp["kind"]] = inp["value"]
+            t._worker_init_fn(0, 1, **kw)
+            expect = self.true_batches(inp["kind"], inp["value"], inp["batch_size"], inp.get("dataset_len"), inp.get("world_size"), inp.get("drop_last"))
+            if t.n_batches != expect:
+                return Failure("scheduled:n-batches", f"n_batches={t.n_batches}, the run has {expect} batches", inp, expect, t.n_batches)
+            return None
         rng = random.Random(1)
         for label, thunk in leaf_recipes(rng):
             if label == inp.get("tree"):
